@@ -54,6 +54,7 @@ const (
 	sigF16Exhaust = "F16:fd_renumber-to-2^31-1-exhausts-host-memory"
 	sigF25        = "F25:poll_oneoff-sleeps-2^63-1ns-without-clock-subscription"
 	sigF61        = "F61:sock_recv-peek-writes-first-iovec-although-ri_data_len-is-0"
+	sigF62        = "F62:readv-rereads-iovec-entries-that-the-same-call-has-overwritten"
 	maxSaneSleep  = int64(1) << 62 // ~146 years
 )
 
@@ -233,6 +234,9 @@ func monitor(cs Case, o outcome, img []byte) []finding {
 		if cs.Fn == "sock_recv" && u32(cs.Args[2]) == 0 && u32(cs.Args[3])&1 != 0 {
 			sig = sigF61
 		}
+		if (cs.Fn == "fd_read" || cs.Fn == "fd_pread" || cs.Fn == "sock_recv") && iovecAliased(img, u32(cs.Args[1]), u32(cs.Args[2])) {
+			sig = sigF62
+		}
 		fs = append(fs, finding{"impl-violation", sig, fmt.Sprintf("%s(%s) [%s,%s] changed guest byte %d outside the output regions of its signature", cs.Fn, fmtArgs(cs.Args), cs.State, cs.Img, off), r.Diff})
 	}
 	if r.Alloc > heapLimit {
@@ -261,6 +265,17 @@ func monitor(cs Case, o outcome, img []byte) []finding {
 		fs = append(fs, finding{"impl-violation", "C15:descriptor-table-changed:" + cs.Fn, fmt.Sprintf("%s(%s): table %s -> %s", cs.Fn, fmtArgs(cs.Args), tableKey(r.Before), tableKey(r.After)), nil})
 	}
 	return fs
+}
+
+// iovecAliased: some non-empty buffer named by the first n iovec entries overlaps the iovec array itself.
+func iovecAliased(img []byte, iovs, n uint64) bool {
+	end := iovs + 8*n
+	for _, r := range iovRegions(img, iovs, n) {
+		if r.len > 0 && r.off < end && iovs < r.off+r.len && r.off+r.len <= uint64(len(img)) {
+			return true
+		}
+	}
+	return false
 }
 
 func firstLines(s string, n int) string {
@@ -758,6 +773,22 @@ func main() {
 			rep.Count("state-sock:skipped-no-loopback")
 			rep.Note("descriptor-table state `sock` skipped: cannot bind a loopback port (%v)", err)
 		}
+		{
+			// finding switch F62: the first iovec buffer covers the second entry, the file's bytes are an iovec
+			w := runAlone(Case{Fn: "fd_read", Args: []uint64{6, offIovC, 2, 16576}, State: "alias", Img: "struct", Engine: "interpreter", Tag: "witness"})
+			v3 := "fixed"
+			if w.res != nil {
+				for _, d := range w.res.Diff {
+					if d.Off == 4096 {
+						v3 = "asis"
+					}
+				}
+			}
+			rep.Note("finding switch F62: readv variant tied to the code = %s", v3)
+			if a := orc.Askf("c15 variant3 %s", v3); a != "ok" {
+				hx.Fatal("oracle variant3: %s", a)
+			}
+		}
 		if sockStateOK {
 			// finding switch F61: sock_recv with RI_RECV_PEEK and ri_data_len = 0
 			w := runAlone(Case{Fn: "sock_recv", Args: []uint64{4, 0, 0, 1, 0xffc0, 0x4140}, State: "sock", Img: "struct", Engine: "interpreter", Tag: "witness"})
@@ -854,6 +885,9 @@ func replayCases(path string) []Case {
 	}
 	if a := orc.Askf("c15 variant2 asis"); a != "ok" {
 		hx.Fatal("oracle variant2: %s", a)
+	}
+	if a := orc.Askf("c15 variant3 asis"); a != "ok" {
+		hx.Fatal("oracle variant3: %s", a)
 	}
 	return cs
 }
